@@ -612,6 +612,36 @@ pub fn xml_docs(a: &[String]) -> serde_json::Value {
     json!({"violates": !bad.is_empty(), "input": {"cases": 3}, "expected": "each member under the element / attribute the API model declares", "observed": bad, "replay_args": ["xml-docs", which]})
 }
 
+/// meta-out: HeadObject answered by a backend whose user-metadata keys are lower case, mixed case and upper case (a backend may keep
+/// the keys of its own store): every entry must arrive as an x-amz-meta-<key> header (header names are case-insensitive) with its
+/// value, status 200
+pub fn meta_out() -> serde_json::Value {
+    struct B;
+    #[async_trait::async_trait]
+    impl s3s::S3 for B {
+        async fn head_object(&self, _req: s3s::S3Request<s3s::dto::HeadObjectInput>) -> s3s::S3Result<s3s::S3Response<s3s::dto::HeadObjectOutput>> {
+            let mut md = s3s::dto::Metadata::default();
+            md.insert("plain".to_owned(), "1".to_owned());
+            md.insert("Mtime".to_owned(), "1727500000".to_owned());
+            md.insert("OWNER-ID".to_owned(), "alice smith".to_owned());
+            let out = s3s::dto::HeadObjectOutput { metadata: Some(md), content_length: Some(0), ..Default::default() };
+            Ok(s3s::S3Response::new(out))
+        }
+    }
+    let svc = s3s::service::S3ServiceBuilder::new(B).build();
+    let req = http::Request::builder().method("HEAD").uri("/bkt/key").body(s3s::Body::empty()).unwrap();
+    let rt = tokio::runtime::Builder::new_current_thread().enable_all().build().unwrap();
+    let res = rt.block_on(async { svc.call(req).await });
+    let (status, headers): (u16, Vec<(String, String)>) = match res {
+        Ok(r) => (r.status().as_u16(), r.headers().iter().map(|(n, v)| (n.as_str().to_owned(), v.to_str().unwrap_or("?").to_owned())).collect()),
+        Err(e) => (0, vec![("transport-error".to_owned(), format!("{e:?}"))]),
+    };
+    let want = [("x-amz-meta-plain", "1"), ("x-amz-meta-mtime", "1727500000"), ("x-amz-meta-owner-id", "alice smith")];
+    let ok = status == 200 && want.iter().all(|(n, v)| headers.iter().any(|(hn, hv)| hn == n && hv == v));
+    serde_json::json!({"violates": !ok, "input": {"backend_metadata_keys": ["plain", "Mtime", "OWNER-ID"]}, "expected": {"status": 200, "headers": want},
+        "observed": {"status": status, "headers": headers}, "replay_args": ["meta-out"]})
+}
+
 fn pct(s: &str) -> Option<String> {
     let b = s.as_bytes(); let mut out = Vec::new(); let mut i = 0;
     while i < b.len() {
